@@ -499,37 +499,46 @@ func window(dev *memdev.Dev, base, off int64, n int) string {
 func emitCase(c *hx.Ctx, id string, w *world, probe string) {
 	size := w.end - w.start
 	avail := w.dev.Size() - w.start
-	acc := accepts(w.dev, size, w.start, w.ss)
+	acc, errs := acceptsErr(w.dev, size, w.start, w.ss)
 	s0 := w.dev.Bytes(w.start, 512)
-	wins := []string{window(w.dev, w.start, 0, 1536)}
+	wins := []string{window(w.dev, w.start, 0, 2048)}
 	// FSInfo sector as fat32.Read locates it: fsInformationSector * bytesPerSector
 	bps := int64(s0[11]) | int64(s0[12])<<8
 	fsi := int64(s0[48]) | int64(s0[49])<<8
-	if off := fsi * bps; off >= 1536 || off+512 > 1536 {
-		if off >= 1536 {
+	if off := fsi * bps; off >= 2048 || off+512 > 2048 {
+		if off >= 2048 {
 			if x := window(w.dev, w.start, off, 512); x != "" {
 				wins = append(wins, x)
 			}
 		}
 	}
-	if x := window(w.dev, w.start, 32768, 8); x != "" {
-		wins = append(wins, x)
-	}
-	// the deep parts of the acceptance tests that the header model does not read: supplied as observed
-	// (iso/squashfs/ext4: everything beyond the magic numbers).  FAT32's deep part - the comparison of the
-	// two FAT copies - is computed by the model itself whenever both copies can be handed over ('m').
-	deep := acc
-	if fw, ok := fatWindows(c, w, s0); ok {
+	// the first bytes of every volume descriptor iso9660.Read's loop looks at
+	wins = append(wins, isoDescWindows(w)...)
+	// FAT32's deep part - the comparison of the two FAT copies - is computed by the model itself whenever both
+	// copies can be handed over ('m'); for iso9660 / squashfs / ext4 the model computes the part of the reader
+	// described in Model/DetectMid.lean and is told at which stage the real reader stopped (mid.go)
+	fw, fatOK := fatWindows(c, w, s0)
+	if fatOK {
 		wins = append(wins, fw...)
-		deep = "m" + acc[1:]
 		c.Stat("fat32-deep-modelled")
 		if acc[0] == '1' {
 			c.Stat("fat32-deep-modelled-accept")
 		}
 	}
+	stg, mid := stages(acc, errs, fatOK)
+	if !ext4LogBlockSizeSane(w) && stg[5] != '1' {
+		stg = stg[:5] + "u"
+		mid = mid[:2] + "?"
+	}
+	for i, k := range []string{"iso9660", "squashfs", "ext4"} {
+		c.Stat("mid." + k + "." + string(stg[3+i]))
+		if stg[3+i] == 'u' {
+			c.Note("%s: %s refusal not placed: %s", id, k, errs[3+i])
+		}
+	}
 	c.Case(id, "detect.probe", fmt.Sprintf("size=%d", size), fmt.Sprintf("avail=%d", avail), fmt.Sprintf("ss=%d", w.ss),
-		"win="+strings.Join(wins, ","), "deep="+deep)
-	c.Impl(id, "acc="+acc, "probe="+probe)
+		"win="+strings.Join(wins, ","), "stg="+stg, fmt.Sprintf("csum=%d", ext4Csum(w)))
+	c.Impl(id, "acc="+acc, "probe="+probe, "mid="+mid)
 }
 
 // fatWindows: the non-zero parts of the two FAT copies as fat32.Read locates them from the boot sector
@@ -682,6 +691,9 @@ func runCase(c *hx.Ctx, id string, g cfg, r *hx.Rng) {
 	}
 	if g.kind == "ext4" && c.Want(id+"/ext4boot") {
 		ext4BootCase(c, id+"/ext4boot", w)
+	}
+	if g.kind == "squashfs" && c.Want(id+"/sqfslast") {
+		sqfsLastCase(c, id+"/sqfslast", w)
 	}
 	c.Stat("created." + g.kind)
 	c.Stat("class." + g.class)
@@ -1048,6 +1060,7 @@ func bootCases(c *hx.Ctx, r *hx.Rng) {
 // Run is the engine entry point.
 func Run(c *hx.Ctx) {
 	bootCases(c, c.Rng.Fork())
+	ext4GeoCases(c, hx.NewRng(c.Seed^0x65787434))
 	cfgs := configs(c)
 	c.StatN("configs-total", len(cfgs))
 	// quick: a fixed third chosen by the seed (the stale matrix for the whole disk is always run)
